@@ -119,6 +119,10 @@ def leaves (s : CState) : List Key :=
   let parents : List (Option Key) := s.absolute.flatMap (·.2) ++ s.prefixed.flatMap (fun p => p.2.map some)
   (s.absolute.map (·.1) ++ s.prefixed.map (·.1)).filter (fun k => !parents.contains (some k))
 
+/-- `parents` of `Linkage.leaves`: everything that is somebody's argument -/
+def parents (s : CState) : List (Option Key) :=
+  s.absolute.flatMap (·.2) ++ s.prefixed.flatMap (fun p => p.2.map some)
+
 end CState
 
 /-- `Table.add(node)` -/
@@ -196,7 +200,8 @@ def emitGroup (s : CState) (stubs : List Key) (grp : Obj × List Key) : Except C
 
 def emit (s : CState) : Except CErr Table := do
   let leaves := s.leaves
-  if leaves.isEmpty then throw .assertion   -- `assert children, 'Not acyclic'`
+  -- `assert children or not parents, 'Not acyclic'` (fix C01-F1: an empty linkage - a single unlinked worker - is acyclic)
+  if leaves.isEmpty && !s.parents.isEmpty then throw .assertion
   -- `stubs = {s for s in (self._index[n] for n in leaves) if isinstance(s, Getter)}`
   let objs ← leaves.mapM (fun n => match aget n s.index with | some o => pure o | none => throw CErr.keyError)
   let stubs := (objs.filter (fun o => match o.instr with | .getter _ => true | _ => false)).map (·.id)
